@@ -386,6 +386,40 @@ def localise(ctx, recipe, pool, bad, mapping, rng):
     return None, None, None
 
 
+def numpy_culprit(expr, xarg, mapping_np, mapping_py):
+    """Differential localisation inside the preprocessed expression: class of the smallest closed scalar sub-expression
+    whose value changes when the numpy scalars / arrays of the mapping are replaced by equal Python numbers."""
+    try:
+        f = expand(expr)
+    except Exception:
+        return None
+    nodes = []
+    seen = set()
+
+    def walk(o):
+        if id(o) in seen:
+            return 0
+        seen.add(id(o))
+        n = 1 + sum(walk(c) for c in o.ufl_operands)
+        if isinstance(o, Expr) and type(o).__name__ not in ("MultiIndex", "Label") and o.ufl_shape == () and not o.ufl_free_indices and o.ufl_operands:
+            nodes.append((n, o))
+        return n
+
+    walk(f)
+    nodes.sort(key=lambda t: t[0])
+    for _, o in nodes[:400]:
+        try:
+            with warnings.catch_warnings():
+                warnings.simplefilter("ignore")
+                a, _ = as_number(o.evaluate(xarg, mapping_np, (), StackDict()))
+                c, _ = as_number(o.evaluate(xarg, mapping_py, (), StackDict()))
+        except Exception:
+            continue
+        if abs(a - c) > 1e-9 * max(1.0, abs(a), abs(c)):
+            return type(o).__name__
+    return None
+
+
 def index_names_inside(n):
     """All index names occurring anywhere in the recipe (free or bound)."""
     s = set(n.fi)
@@ -494,6 +528,9 @@ def case(ctx, i, rng):
             r2, _ = observe(ctx, sub, sube, pool, [(b["x"], b.get("xform", "tuple"))], pm, rng, [kind if not sub.fi else "evaluate"], record=False)
             if r2 and not any(v in ("disagree", "whole-disagree", "nonnumeric", "lostindex") for v, _ in r2):
                 suffix = "/numpy-typed-mapping-value"
+                finer = numpy_culprit(sube, xarg_of(b["x"], b.get("xform", "tuple")), mapping, pm)
+                if finer is not None:
+                    cls = finer
         if reuses_bound_index(sub):
             suffix += "/index-also-bound-inside-operand"
         nonnum = winfo.get("expected") is None
